@@ -253,7 +253,11 @@ def walk_here_statement(buff, pos):
         return pos + 1
     isspace = str.isspace
     end = len(buff)
+    strip_tabs = False
     while pos < end and (isspace(buff[pos]) or buff[pos] == "-"):
+        if buff[pos] == "-":
+            # <<- strips leading tabs (only tabs) off the body and the delimiter
+            strip_tabs = True
         pos += 1
     if buff[pos] in "'\"":
         end_here = walk_statement_no_parsing(buff, pos + 1, buff[pos])
@@ -272,9 +276,10 @@ def walk_here_statement(buff, pos):
     end_here = buff.find(here_word, end_here)
     while end_here != -1:
         i = here_len + end_here
-        if buff[i] in ";\n\r})":
+        if buff[i] in "\n)":
+            # the delimiter has to be alone on its line
             i = end_here - 1
-            while i >= 0 and buff[i] in "\t ":
+            while strip_tabs and i >= 0 and buff[i] == "\t":
                 i -= 1
             if i >= 0 and buff[i] == "\n":
                 break
